@@ -963,6 +963,17 @@ def gen_base():
     L.append("Fixpoint bset (m : list bool) (a : float) (base : vec) : vec :=\n  match m, base with b_ :: m', e_ :: base' => (if b_ then a else e_) :: bset m' a base' | _, _ => base end.")
     L.append("Definition cauchy_head (x grad lb ub : vec) : vec * vec * list nat :=\n  " + "\n  ".join(lets)
              + f"\n  ({got['t'][0]}, {got['d'][0]}, {got['sorted_t_idx'][0]}).")
+    # cauchy.get_cauchy_point, its final move: is_moving = d != 0; x_cp[is_moving] = np.clip(x + t_old * d, lb, ub)[is_moving]
+    fm = [st for st in fn.body if isinstance(st, ast.Assign) and len(st.targets) == 1 and ast.unparse(st.targets[0]) in ("is_moving", "x_cp[is_moving]")]
+    if [ast.unparse(st.targets[0]) for st in fm] != ["is_moving", "x_cp[is_moving]"]:
+        raise TranslateError("get_cauchy_point: final move not recognised")
+    env2 = {"x": ("x", "v"), "d": ("d", "v"), "lb": ("lb", "v"), "ub": ("ub", "v"), "t_old": ("t_old", "f"), "x_cp": ("x_cp", "v")}
+    m_, tm_ = VecExpr(env2).tr(fm[0].value)
+    env2["is_moving"] = ("is_moving_", tm_)
+    v_, tv_ = VecExpr(env2).tr(fm[1].value)
+    if tm_ != "bv" or tv_ != "v":
+        raise TranslateError("get_cauchy_point: final move of unexpected types")
+    L.append(f"Definition cauchy_final_move (t_old : float) (x_cp x d lb ub : vec) : vec :=\n  let is_moving_ := {m_} in bscatter is_moving_ {v_} x_cp.")
     # the call sites in main.py: is_boxed, the loop guard and the final test
     mt = ast.parse(_src("main.py"))
     mf = _func(mt, "minimize_lbfgsb")
